@@ -58,6 +58,13 @@ var c15Faults = []c15Fault{
 	{"let-unknown-identifier", "<% let z9 = nope %>", false},
 	{"assign-unknown-target", "<% nope = 1 %>", false},
 	{"partial-missing", "<%= partial(\"missing\") %>", false},
+	// the failing statement starts on the tag's first line and the tag goes on over further lines
+	{"multiline:unknown-identifier", "<%= nope +\n  1 %>", false},
+	{"multiline:failing-helper", "<%= fail(\n) %>", false},
+	{"multiline:index-out-of-range", "<%= xs[\n  9\n] %>", false},
+	{"multiline:division-by-zero", "<%= 1 /\n\n0 %>", false},
+	{"multiline:string-with-newline", "<%= nope + \"a\nb\" %>", false},
+	{"multiline:trailing-comment", "<%= nope # why\n %>", false},
 	{"unclosed-paren", "<%= (1 %>", true},
 	{"no-prefix-fn", "<%= * 2 %>", true},
 	{"bad-let", "<% let = 1 %>", true},
